@@ -189,17 +189,25 @@ def execute(case):
             for op in sorted(case["env"], key=lambda o: o["t"]):
                 await trio.sleep_until(op["t"] / 8 * ts)
                 close_step()
-                st["env"] = True
-                try:
-                    if op["e"] == "Set":
+                if op["e"] == "Quit":
+                    # a spawned child gives up (only when there is one, next to the first child)
+                    quitters = [c for c in kids[1:] if c._demand > 0 and c in svc.children]
+                    if quitters and kids[0]._demand > 0:
+                        quitters[0]._demand = 0
+                        events.append(dict(op))
+                elif op["e"] == "Set":
+                    st["env"] = True
+                    try:
                         c08.apply_set(pool, op["attr"], op["v"])
-                    elif kind == "buffer":
-                        svc.demand = op["v"] / 16
-                    else:
-                        svc.demand = op["v"] / 16
-                finally:
-                    st["env"] = False
-                events.append(dict(op))
+                    finally:
+                        st["env"] = False
+                    events.append(dict(op))
+                else:
+                    # a write THROUGH the service: whatever it makes the service do to its
+                    # target right away is the service acting (at this time, not on its period)
+                    events.append(dict(op))
+                    svc.demand = op["v"] / 16
+                    close_step()
             await trio.sleep_until(case["T"] / 8 * ts)
             close_step()
             events.append({"e": "End", "t": case["T"]})
@@ -277,6 +285,8 @@ def case_of_path(p):
             env.append({"t": h["t"], "e": "Set", "attr": a["attr"], "v": a["v"]})
         elif a["name"] == "Write":
             env.append({"t": h["t"], "e": "Write", "v": a["v"]})
+        elif a["name"] == "Quit":
+            env.append({"t": h["t"], "e": "Quit"})
     return scn, I, env
 
 
@@ -300,7 +310,7 @@ def random_case(rnd, scns):
             v = rnd.choice([0, 16, 32, 48, 64]) if kind == "buffer" else rnd.choice([1, 2, 3, 4]) * 16
             env.append({"t": t, "e": "Write", "v": v})
         elif kind == "factory":
-            continue
+            env.append({"t": t, "e": "Quit"})
         elif kind == "buffer":
             env.append({"t": t, "e": "Set", "attr": "demand", "v": rnd.choice([0, 16, 32, 48])})
         else:
